@@ -27,3 +27,8 @@ pub fn properties_to_packed_cbor(properties: &Properties) -> Option<Vec<u8>> {
 pub fn properties_from_cbor(cbor: &[u8]) -> Properties {
   Properties::from_cbor(cbor)
 }
+
+/// `Item::id` (unwraps the optional id)
+pub fn item_id(item: &Item) -> InscriptionId {
+  item.id()
+}
